@@ -59,7 +59,7 @@ impl AdtVersion {
     /// introduced in each expansion, starting with the most recent.
     ///
     /// Detection algorithm:
-    /// 1. `MTXP` present → Mists of Pandaria (5.x)
+    /// 1. `MTXP` or a blend mesh chunk (`MBMH`/`MBBB`/`MBNV`/`MBMI`) present → Mists of Pandaria (5.x)
     /// 2. `MAMP` present OR (has `MCNK` but no `MCIN`) → Cataclysm (4.x)
     ///    - Split root files have `MCNK` but `MCIN` moved to _tex0.adt
     /// 3. `MH2O` present → Wrath of the Lich King (3.x)
@@ -97,7 +97,12 @@ impl AdtVersion {
         let has_mcin = chunks.contains_key(&ChunkId::MCIN);
         let is_split_root = has_mcnk && !has_mcin;
 
-        if chunks.contains_key(&ChunkId::MTXP) {
+        // The blend mesh chunks were introduced together with MTXP in MoP
+        let has_blend_mesh = [ChunkId::MBMH, ChunkId::MBBB, ChunkId::MBNV, ChunkId::MBMI]
+            .iter()
+            .any(|id| chunks.contains_key(id));
+
+        if chunks.contains_key(&ChunkId::MTXP) || has_blend_mesh {
             Self::MoP
         } else if chunks.contains_key(&ChunkId::MAMP) || is_split_root {
             // Cataclysm: Either has MAMP or is split root file
@@ -257,6 +262,28 @@ mod tests {
             vec![ChunkLocation {
                 offset: 0x1000,
                 size: 100,
+            }],
+        );
+
+        let version = AdtVersion::detect_from_chunks(&chunks);
+        assert_eq!(version, AdtVersion::MoP);
+    }
+
+    #[test]
+    fn detect_mop_from_blend_mesh_without_mtxp() {
+        let mut chunks = HashMap::new();
+        chunks.insert(
+            ChunkId::MBMH,
+            vec![ChunkLocation {
+                offset: 0x1000,
+                size: 28,
+            }],
+        );
+        chunks.insert(
+            ChunkId::MTXF,
+            vec![ChunkLocation {
+                offset: 0x2000,
+                size: 4,
             }],
         );
 
